@@ -137,6 +137,10 @@ def _plain(x):
         return [_plain(v) for v in x]
     if isinstance(x, dict):
         return {k: _plain(v) for k, v in x.items()}
+    if isinstance(x, bytes):
+        return x.decode("latin-1")             # strings cross the TLC boundary as byte sequences
+    if isinstance(x, str):
+        return x.encode("utf-8", "surrogateescape").decode("latin-1")
     if hasattr(x, "item") and not isinstance(x, (bytes, str)):
         try:
             return x.item()
@@ -226,3 +230,113 @@ def _zip_lists(x, y):
     if isinstance(x, list) and isinstance(y, list) and len(x) == len(y):
         return [_zip_lists(a, b) for a, b in zip(x, y)]
     return {"0": x, "1": y}
+
+
+# ------------------------------------------------------------------ C16 (buffers / pickle / numpy / arrow)
+def _same(ak, a, b, what, check_type=True):
+    la, lb = ak.to_list(a), ak.to_list(b)
+    if not replay.values_equal(_plain(la), _plain(lb)):
+        return "%s: value %s differs from original %s" % (what, json.dumps(_plain(lb), default=str)[:200], json.dumps(_plain(la), default=str)[:200])
+    if check_type and str(ak.type(a)) != str(ak.type(b)):
+        return "%s: type %s differs from original %s" % (what, ak.type(b), ak.type(a))
+    return None
+
+
+def h_c16(case, pick, st, stats):
+    ak, np = st["ak"], st["np"]
+    import pickle
+    lay = to_ext_layout(case["from"], pick)
+    A = ak.Array(lay)
+    want = replay.vjson_to_py(case["exp"]["v"])
+    if not replay.values_equal(_plain(ak.to_list(A)), want):
+        return "to_list of the layout differs from the specification: %s" % (json.dumps(_plain(ak.to_list(A)), default=str)[:200],)
+    # ---- to_buffers / from_buffers with a dict container, custom keys, a bytes-only container
+    form, length, container = ak.to_buffers(A)
+    why = _same(ak, A, ak.from_buffers(form, length, container), "from_buffers(to_buffers)")
+    if why:
+        return why
+    if str(ak.from_buffers(form, length, container).layout.form) != str(A.layout.form):
+        return "from_buffers(to_buffers): form differs"
+    raw = {k: bytes(np.asarray(v).tobytes()) for k, v in container.items()}
+    why = _same(ak, A, ak.from_buffers(form, length, raw), "from_buffers with a bytes-only container")
+    if why:
+        return why
+    form2, length2, cont2 = ak.to_buffers(A, form_key="n{id}", key_format="{form_key}:{attribute}:p{partition}")
+    why = _same(ak, A, ak.from_buffers(form2, length2, cont2, key_format="{form_key}:{attribute}:p{partition}"), "custom form_key/key_format")
+    if why:
+        return why
+    # ---- pickle
+    # (pickling packs the array first, which merges the members of a union that have the same type: only the value is
+    #  compared for union types)
+    why = _same(ak, A, pickle.loads(pickle.dumps(A)), "pickle", check_type="union[" not in str(ak.type(A)))
+    if why:
+        return why
+    # ---- partitioned
+    # (to_buffers requires all partitions to have the same Form, so the two partitions are the same layout twice, and
+    #  the layout with a zero-length one of the same class)
+    P = ak.partitioned([A, A])
+    f3, l3, c3 = ak.to_buffers(P)
+    Q = ak.from_buffers(f3, l3, c3)
+    AA = ak.to_list(A) + ak.to_list(A)
+    if not replay.values_equal(_plain(ak.to_list(Q)), _plain(AA)):
+        return "partitioned to_buffers/from_buffers: value %s" % (json.dumps(_plain(ak.to_list(Q)), default=str)[:200],)
+    if not isinstance(Q.layout, ak.partition.PartitionedArray) or [len(x) for x in Q.layout.partitions] != [len(x) for x in P.layout.partitions]:
+        return "partitioning not preserved by to_buffers/from_buffers: %r" % ([len(x) for x in getattr(Q.layout, "partitions", [])],)
+    R = pickle.loads(pickle.dumps(P))
+    if not replay.values_equal(_plain(ak.to_list(R)), _plain(AA)):
+        return "pickle of a partitioned array: value %s" % (json.dumps(_plain(ak.to_list(R)), default=str)[:200],)
+    if not isinstance(R.layout, ak.partition.PartitionedArray) or [len(x) for x in R.layout.partitions] != [len(x) for x in P.layout.partitions]:
+        return "partitioning not preserved by pickle"
+    # ---- numpy
+    ty = case.get("fromty", "")
+    # (NumPy masked arrays cannot say "this whole row is missing": option-of-list types are compared through Arrow only)
+    rect = "option[" not in ty and "var" not in ty and "{" not in ty and "(" not in ty and "union" not in ty and "string" not in ty and "bytes" not in ty
+    if rect:
+        try:
+            arr = ak.to_numpy(A, allow_missing=True)
+        except ORDINARY as e:
+            return "to_numpy refused a rectilinear array of type %s: %s" % (ty, str(e)[:120])
+        got = arr.tolist() if not isinstance(arr, np.ma.MaskedArray) else arr.tolist()
+        if not replay.values_equal(_plain(got), want):
+            return "to_numpy(...).tolist() %s differs from to_list" % (json.dumps(_plain(got), default=str)[:200],)
+        back = ak.from_numpy(arr, regulararray=pick([True, False]))
+        if not replay.values_equal(_plain(ak.to_list(back)), want):
+            return "from_numpy(to_numpy(a)) differs: %s" % (json.dumps(_plain(ak.to_list(back)), default=str)[:200],)
+        stats["numpy_checked"] += 1
+    # ---- arrow
+    if "unknown" not in ty and "union[" not in ty:      # (unions through Arrow: not judged, see run_C16's assumptions)
+        import pyarrow
+        opts = dict(list_to32=pick([False, True]), string_to32=pick([True, False]))
+        try:
+            pa = ak.to_arrow(A, **opts)
+        except ORDINARY as e:
+            return "to_arrow raised %s: %s" % (type(e).__name__, str(e)[:160])
+        try:
+            pl = pa.to_pylist()
+        except Exception:
+            pl = None
+        if pl is not None and not replay.values_equal(_plain(_arrow_pylist(pl)), want):
+            return "pyarrow to_pylist %s differs from to_list (options %r)" % (json.dumps(_plain(pl), default=str)[:200], opts)
+        try:
+            back = ak.from_arrow(pa)
+        except ORDINARY as e:
+            return "from_arrow(to_arrow(a)) raised %s: %s (options %r)" % (type(e).__name__, str(e)[:120], opts)
+        if not replay.values_equal(_plain(ak.to_list(back)), want):
+            return "from_arrow(to_arrow(a)) differs: %s" % (json.dumps(_plain(ak.to_list(back)), default=str)[:200],)
+        t0, t1 = str(ak.type(A)), str(ak.type(back))
+        if _inner_optionness(t0) != _inner_optionness(t1):
+            return "option-ness below the top level not preserved by Arrow: %s -> %s" % (t0, t1)
+    return None
+
+
+def _arrow_pylist(x):
+    return x
+
+
+def _inner_optionness(t):
+    """positions of option markers below the top level of a type string, normalised"""
+    body = t.split(" * ", 1)[1] if " * " in t else ""
+    body = body.replace("option[", "?[")
+    if body.startswith("?"):
+        body = body[1:]
+    return [i for i, ch in enumerate(body.replace(" ", "")) if ch == "?"].__len__()
